@@ -101,29 +101,118 @@ def outcome(effects, lam, L):
     return ("fall",)
 
 
+class InlineLocalHelpers(Hooks):
+    """inline file-local (static) helper functions of the parameter constructors"""
+
+    def __init__(self, fn):
+        self.fn = fn
+
+    def want_inline(self, ex, callee, node):
+        return bool(callee.get("static")) and callee.file == self.fn.file and not callee.get("record")
+
+
+def _disjuncts(c):
+    if c[0] == "op" and c[1] == "||":
+        return _disjuncts(c[2]) + _disjuncts(c[3])
+    return [c]
+
+
+def cached_object(v, eff, glob, alloc_name):
+    """The argument is read from static storage `glob` (a cache that outlives the call).  Sound only when the cache is
+    refilled whenever ANY constructor argument differs: find the guarded refill  if (!g || g->F1 != a1 || ...) g = alloc(a...)
+    and compare the tested fields with the fields the constructor derives from its arguments.
+    -> (True, detail) | (False, detail) | (None, reason)"""
+    fills = []
+
+    def scan(effs, conds):
+        for x in effs:
+            if x["e"] == "if":
+                scan(x["then"], conds + [x["cond"]])
+                scan(x["else"], conds + [sym.unop("!", x["cond"])])
+            elif x["e"] == "inlined":
+                scan(x["body"], conds)
+            elif x["e"] in ("loop", "while"):
+                scan(x["body"], conds + [("unk",)])
+            elif x["e"] == "store" and x["lv"] == glob:
+                fills.append((x, conds))
+    scan(eff, [])
+    if len(fills) != 1 or len(fills[0][1]) != 1:
+        return None, "refill of %s not recognised (%d stores)" % (sym.show(glob), len(fills))
+    st, (cond,) = fills[0]
+    if not (st["val"][0] == "obj" and st["val"][1] == alloc_name):
+        return None, "%s is filled with %s" % (sym.show(glob), sym.show(st["val"]))
+    args = st["val"][2]
+    tested = {}
+    for d in _disjuncts(cond):
+        if d[0] in ("op", "fop") and d[1] == "!=" and d[2][0] == "fld" and d[2][1] == sym.idx(glob, sym.ZERO):
+            tested[d[2][2]] = d[3]
+        elif d[0] in ("op", "fop") and d[1] == "!=" and d[3][0] == "fld" and d[3][1] == sym.idx(glob, sym.ZERO):
+            tested[d[3][2]] = d[2]
+    # fields the constructor sets directly from each parameter
+    rec = alloc_name[len("new_"):]
+    ctor = [f for f in v.defined() if f.get("record") == rec and f.get("kind") == "ctor" and not f.get("implicit") and not f.get("copy")]
+    if len(ctor) != 1:
+        return None, "%s constructor not found" % rec
+    ceff, _, cex = run_function(v, ctor[0], hooks=Hooks())
+    this0 = sym.idx(sym.sym("this"), sym.ZERO)
+    direct = {}
+    for x in flat(ceff):
+        if x["e"] == "store" and x["lv"][0] == "fld" and x["lv"][1] == this0 and x["val"][0] == "sym":
+            direct.setdefault(x["val"][1], x["lv"][2])
+    missing = []
+    for k, prm in enumerate(ctor[0].params):
+        fld_ = direct.get(prm["n"])
+        if fld_ is None or fld_ not in tested or tested[fld_] != args[k]:
+            missing.append("%s (argument %d, value %s)" % (prm["n"], k, sym.show(args[k])))
+    if missing:
+        return False, ("%s is a cache in static storage refilled only when %s differ(s); it is NOT refilled when %s differs, so the "
+                       "object handed out carries the value of an EARLIER call (line %s)" % (
+                           sym.show(glob), sorted(tested), "; ".join(missing), st["l"]))
+    return True, "%s is a cache keyed on every constructor argument" % sym.show(glob)
+
+
 def param_set(v, fn):
     """constants of one static parameter constructor, by following its constructor calls"""
-    eff, st, ex = run_function(v, fn, hooks=Hooks())
-    calls = {x["name"]: x for x in flat(eff) if x["e"] == "call"}
-    out = {}
+    eff, st, ex = run_function(v, fn, hooks=InlineLocalHelpers(fn))
+    calls = {}
+    for x in flat(eff):
+        if x["e"] == "call":
+            calls.setdefault(x["name"], []).append(x)
+    out = {"problems": []}
     need = ("new_LweParams", "new_TLweParams", "new_TGswParams")
     for n in need:
-        if n not in calls:
-            return None, "no call to %s in %s" % (n, fn.name)
+        if len(calls.get(n, [])) != 1:
+            return None, "%d calls to %s in %s (helpers inlined)" % (len(calls.get(n, [])), n, fn.name)
+    calls = {k: x[0] for k, x in calls.items()}
     a = calls["new_LweParams"]["args"]
     out["n"], out["ks_stdev"], out["lwe_alpha_max"] = sym.const_value(a[0]), fold_float(a[1]), fold_float(a[2])
     a = calls["new_TLweParams"]["args"]
     out["N"], out["k"], out["bk_stdev"], out["tlwe_alpha_max"] = sym.const_value(a[0]), sym.const_value(a[1]), fold_float(a[2]), fold_float(a[3])
     a = calls["new_TGswParams"]["args"]
     out["l"], out["Bgbit"] = sym.const_value(a[0]), sym.const_value(a[1])
-    out["tgsw_uses_tlwe"] = a[2] == calls["new_TLweParams"]["ret"]
+
+    def same_object(arg, alloc):
+        if arg == calls[alloc]["ret"]:
+            return True
+        if arg[0] == "glob":
+            ok, detail = cached_object(v, eff, arg, alloc)
+            if ok is None:
+                return None
+            if not ok:
+                out["problems"].append(detail)
+            return ok
+        return False
+    out["tgsw_uses_tlwe"] = same_object(a[2], "new_TLweParams")
     ctor = next((x for x in flat(eff) if x["e"] == "call" and x["name"].startswith("TFheGateBootstrappingParameterSet::")), None)
     if ctor is None:
         return None, "no TFheGateBootstrappingParameterSet construction in %s" % fn.name
     a = ctor["args"]
     out["ks_t"], out["ks_basebit"] = sym.const_value(a[0]), sym.const_value(a[1])
-    out["set_uses_lwe"] = a[2] == calls["new_LweParams"]["ret"]
-    out["set_uses_tgsw"] = a[3] == calls["new_TGswParams"]["ret"]
+    out["set_uses_lwe"] = same_object(a[2], "new_LweParams")
+    out["set_uses_tgsw"] = same_object(a[3], "new_TGswParams")
+    for k in ("tgsw_uses_tlwe", "set_uses_lwe", "set_uses_tgsw"):
+        if out[k] is None:
+            return None, "%s: source of the parameter object not recognised in %s" % (k, fn.name)
     return out, None
 
 
@@ -228,8 +317,8 @@ def run(chk):
                 chk.require(ok, "R2", "%s: %s == %s (%s)" % (name, k, w, src.get(k, "published set")), where=f.where,
                             ok="folded value %s" % got, bad="folded value %s" % got, variant=vn)
             for k in ("tgsw_uses_tlwe", "set_uses_lwe", "set_uses_tgsw"):
-                chk.require(ps[k], "R2", "%s: %s" % (name, k), where=f.where, ok="same object", bad="a different object is passed",
-                            variant=vn, nontrivial=False)
+                chk.require(ps[k], "R2", "%s: %s (the object built in this call from this set's constants)" % (name, k), where=f.where,
+                            ok="same object", bad="; ".join(ps["problems"]) or "a different object is passed", variant=vn, nontrivial=False)
             # R3 structural
             chk.require(ps["l"] * ps["Bgbit"] <= 32, "R3", "%s: l*Bgbit <= 32" % name, where=f.where,
                         ok="%d" % (ps["l"] * ps["Bgbit"]), bad="%d" % (ps["l"] * ps["Bgbit"]), variant=vn)
